@@ -135,7 +135,8 @@ def c02(ck):
     if ck.violations:
         return
     # items and messages at the size boundaries (run-length summaries): header, payload, message frame
-    ck.trace("big", "big", [], "TraceCodec", "TraceCodec.cfg", ["InvBig"], nontrivial=lambda e: e.get("n", 0) >= 31)
+    ck.trace("big", "big", [], "TraceCodec", "TraceCodec.cfg", ["InvBig", "InvSeq"],
+             nontrivial=lambda e: e.get("n", 0) >= 31 or e.get("ev") in ("bigseq", "bigflat"))
     if ck.violations:
         return
     c02_values(ck)
